@@ -1,7 +1,8 @@
 /-!
 Decision logic of the signature / ownership part of transaction verification (C07):
-`verifySignatures`, `verifyXuperSign`, `verifyUTXOPermission` of
-bcs/ledger/xledger/state/tx_verification.go and `IdentifyAK` / `VerifySign` of
+`verifySignatures`, `verifyXuperSign`, `verifyUTXOPermission`, and the token side of
+`verifyTxRWSets` / `isContractUtxoEffective` (contract-justified inputs) of
+bcs/ledger/xledger/state/tx_verification.go, `UTXOReader.SelectUtxo` / `UTXOSandbox.Transfer`, and `IdentifyAK` / `VerifySign` of
 kernel/permission/acl/utils/utils.go, over abstract cryptography.  Core Lean only.
 
 A name is an address (AK), an account, or invalid (`IsAccount` = 0 / 1 / -1).  A signature
@@ -32,9 +33,18 @@ structure AuthReq where
   addr : Addr
 deriving DecidableEq, Repr
 
+/-- a spent output: its owner (`FromAddr`), the output it refers to (`RefTxid` as an abstract id,
+`RefOffset`) and the amount -/
 structure Input where
   owner : Name
-  byContract : Bool       -- listed among the contract-justified inputs (checked by RWSet re-execution)
+  txid : Nat := 0
+  offset : Int := 0
+  amount : Nat := 0
+deriving DecidableEq, Repr
+
+structure Output where
+  amount : Nat
+  to : Name
 deriving DecidableEq, Repr
 
 structure XSign where
@@ -50,6 +60,11 @@ structure Tx where
   authRequireSigns : List Sig
   xuper : Option XSign
   inputs : List Input
+  outputs : List Output := []
+  /-- `$transient/ContractUtxo.Inputs` / `.Outputs` of TxOutputsExt: what the pre-execution of the
+  carried contract requests is said to have spent and paid -/
+  contractInputs : List Input := []
+  contractOutputs : List Output := []
 deriving DecidableEq, Repr
 
 structure Env where
@@ -104,23 +119,103 @@ def verifySignatures (e : Env) (t : Tx) : Option (List Name) :=
     | none => none
     | some v => authLoop (t.authRequire.zip t.authRequireSigns) v
 
-/-- `verifyUTXOPermission` -/
-def utxoLoop (e : Env) (auth : List AuthReq) : List Input → List Name → Bool
+/-- the key of `conUtxoInputsMap`, `GenUtxoKey(FromAddr, RefTxid, RefOffset)`: the declared contract
+input and the transaction input name the same output **of the same owner** -/
+def sameUtxo (c i : Input) : Bool := c.owner == i.owner && c.txid == i.txid && c.offset == i.offset
+
+/-- the input is listed among the contract-justified inputs (its spend is checked by re-execution) -/
+def byContract (cins : List Input) (i : Input) : Bool := cins.any (sameUtxo · i)
+
+/-- `verifyUTXOPermission`; `exempt` says which inputs are left to the re-execution check -/
+def utxoLoop (e : Env) (auth : List AuthReq) (exempt : Input → Bool) : List Input → List Name → Bool
   | [], _ => true
   | i :: rest, v =>
-    if i.byContract then utxoLoop e auth rest v
-    else if v.contains i.owner then utxoLoop e auth rest v
+    if exempt i then utxoLoop e auth exempt rest v
+    else if v.contains i.owner then utxoLoop e auth exempt rest v
     else match i.owner with
-      | .account n => if e.acctExists n && e.acctOk n auth then utxoLoop e auth rest (i.owner :: v) else false
+      | .account n => if e.acctExists n && e.acctOk n auth then utxoLoop e auth exempt rest (i.owner :: v) else false
       | .ak _ => false
       | .invalid => false
 
-/-- the part of `ImmediateVerifyTx` this property is about (version > 0, not autogen) -/
-def verifyTx (e : Env) (t : Tx) : Bool :=
+/-- signature and ownership stages with a given exemption rule -/
+def verifyTxWith (exempt : Tx → Input → Bool) (e : Env) (t : Tx) : Bool :=
   t.txidOk &&
   match verifySignatures e t with
   | none => false
-  | some v => utxoLoop e t.authRequire t.inputs v
+  | some v => utxoLoop e t.authRequire (exempt t) t.inputs v
+
+/-- the part of `ImmediateVerifyTx` up to `verifyUTXOPermission` (version > 0, not autogen) -/
+def verifyTx (e : Env) (t : Tx) : Bool := verifyTxWith (fun t => byContract t.contractInputs) e t
+
+/-! ### outputs spent by the contract code the transaction carries (`verifyTxRWSets`, token side)
+
+The carried requests are re-executed in a sandbox whose UTXO reader serves **only the declared
+inputs** (`sandbox.NewUTXOReaderFromInput`).  The token side of the code is abstracted to the list
+of `Transfer(payer, to, amount)` calls it makes. -/
+
+structure Transfer where
+  payer : Name
+  to : Name
+  amount : Int
+deriving DecidableEq, Repr
+
+/-- `UTXOReader.SelectUtxo(payer, amount)` over the declared inputs not yet taken: inputs are taken
+in order until the amount is covered, each must belong to the payer ("from address mismatch in
+utxo cache"); `sum` is what has been taken so far (`sum < amount` on entry).
+Result: (taken, total, left). -/
+def selectUtxo (payer : Name) (amount : Nat) : List Input → Nat → Option (List Input × Nat × List Input)
+  | [], _ => none
+  | i :: rest, sum =>
+    if i.owner != payer then none
+    else if amount ≤ sum + i.amount then some ([i], sum + i.amount, rest)
+    else match selectUtxo payer amount rest (sum + i.amount) with
+      | none => none
+      | some (taken, total, left) => some (i :: taken, total, left)
+
+/-- `UTXOSandbox.Transfer` for every call in order (a non-positive amount is refused, the excess of
+the taken inputs goes back to the payer).  Result: everything spent, everything paid. -/
+def runTransfers : List Transfer → List Input → Option (List Input × List Output)
+  | [], _ => some ([], [])
+  | tr :: trs, avail =>
+    if tr.amount ≤ 0 then none else
+    match selectUtxo tr.payer tr.amount.toNat avail 0 with
+    | none => none
+    | some (taken, total, left) =>
+      match runTransfers trs left with
+      | none => none
+      | some (ins, outs) =>
+        some (taken ++ ins,
+          (⟨tr.amount.toNat, tr.to⟩ :: (if tr.amount.toNat < total then [⟨total - tr.amount.toNat, tr.payer⟩] else [])) ++ outs)
+
+/-- `isSubOutputs`: every declared payment is matched by an output of the transaction of its own -/
+def subOutputs : List Output → List Output → Bool
+  | [], _ => true
+  | c :: cs, outs => outs.contains c && subOutputs cs (outs.erase c)
+
+/-- `isContractUtxoEffective`: what the execution is said to have spent and paid is part of the
+transaction (inputs are compared by the output they refer to) -/
+def effective (t : Tx) : Bool :=
+  decide (t.contractInputs.length ≤ t.inputs.length) && decide (t.contractOutputs.length ≤ t.outputs.length) &&
+  t.contractInputs.all (fun c => t.inputs.any (fun i => i.txid == c.txid && i.offset == c.offset)) &&
+  subOutputs t.contractOutputs t.outputs
+
+/-- token side of `verifyTxRWSets` for a transaction that carries requests: the declared inputs and
+payments are in the transaction, and re-executing the code over the declared inputs spends and pays
+exactly what was declared (the two `$transient` entries are part of the compared write set) -/
+def verifyContract (code : List Transfer) (t : Tx) : Bool :=
+  effective t &&
+  match runTransfers code t.contractInputs with
+  | none => false
+  | some (ins, outs) => ins == t.contractInputs && outs == t.contractOutputs
+
+/-- `ImmediateVerifyTx` of a transaction that carries no contract request: it must carry no
+contract read / write set either (`ErrInvalidTxExt`), in particular no declared contract inputs -/
+def verifyTxNoCode (exempt : Tx → Input → Bool) (e : Env) (t : Tx) : Bool :=
+  verifyTxWith exempt e t && t.contractInputs.isEmpty && t.contractOutputs.isEmpty
+
+/-- `ImmediateVerifyTx` of a transaction carrying contract requests whose token side is `code` -/
+def verifyTxC (exempt : Tx → Input → Bool) (e : Env) (code : List Transfer) (t : Tx) : Bool :=
+  verifyTxWith exempt e t && verifyContract code t
 
 /-- specification side: address `a` has, in this transaction, an entry whose key hashes to `a`
 and whose signature over the digest verifies -/
